@@ -9,7 +9,23 @@ CONFIG = dict(
              '(malformed); malformed streams with out-of-range developer/file indices, short line lists, over-long matrices, ragged interaction '
              'matrices, missing people histories (panics, also inside worker goroutines: run in a child process). kind = analysis + identity '
              'class (lit: every identity spelled like its merged identity; idmerge: identities merge, one per result; bridge: two identities '
-             'of one result merge). Non-trivial = both results have developers (and ticks / files); distinct = distinct input.',
+             'of one result merge). '
+             'Scale family (harness/cmd/c18/scale.go, cases carry the field (fam sc-ids | sc-big)): (1) identity GRAPHS - lists of 8..40 '
+             'identities per side (burndown: up to 10, one bit per developer history) whose shares-a-part graph is made of random bipartite '
+             'trees (chains of 5..24 renames, stars, chains hanging off stars, bushy trees, extra cycle edges, identities with 1-5 parts, twins, '
+             'unrelated identities), every part in at most one identity per list, laid out in adversarial orders inside the two lists '
+             '(creation order, reversed, rotated by 1..3, reversed and rotated, deepest first, evens then odds, by depth, shuffled; half of the '
+             'pairs are the ones that build deep forests in order-sensitive merges), kinds sc-dv-<class>, sc-cp-<class>, bd-<class>; '
+             '(2) LARGE results - couples with n files or n developers per side, developer statistics with n ticks, n developers of one tick, '
+             'n languages, n in 7..513 (a third of the sizes per axis, rotating with the seed), 1003 + 300, 40 + 1029 and one more pair from '
+             '{999, 1000, 1001, 1003, 1023, 1024, 1025, 1029, 2048, 2051} in the quick tier; all of these and 4096, 4099, 10007 in the thorough '
+             'tier; partially overlapping name lists with the second list in a strided order, sparse rows, last rows non-empty, kinds '
+             'sc-cp-files, sc-cp-people, sc-dv-ticks, sc-dv-people, sc-dv-langs. Scale cases are judged by the fast oracles cp_sum_fast_b / '
+             'dv_conserve_fast_b (proved to imply cp_sum_b / dv_conserve_b) and the model is still replayed. Every devs / couples / burndown '
+             'case (all streams) also has the identity table of the call judged: same merged index <=> connected by shared names / e-mails, '
+             'merged description = union of the parts, by an independent union-find in the driver (every size) and by the extracted oracles '
+             'of C16 mtotal_okb / mcomponents_okb / munion_okb (always up to 12 identities, sampled up to 44), inside the domain "every part in '
+             'at most one entry of a list". Non-trivial = both results have developers (and ticks / files); distinct = distinct input.',
         exhaustive_note='identity lists: all 15 x 15 pairs of partial partitions of {ann, bob, a@x.io} (second list also reversed), each with '
                         'generated data, for the three analyses',
         assumptions=[
@@ -18,7 +34,10 @@ CONFIG = dict(
             'theorems about developer statistics and couples hold for EVERY table; the burndown theorems assume wf_table_b (every input '
             'identity has an entry, Final inside the merged list, First/Second point back at positions holding that very identity, lists '
             'without duplicates, every merged identity has a member), which the driver evaluates on the table of every real call '
-            '(counter table_not_wf, 0 in every run so far); the correctness of that table is property C16',
+            '(counter table_not_wf, 0 in every run so far); the correctness of that table is property C16, but since the strengthening '
+            'round the C18 driver judges it too (C18_identity_classes: a table that passes mtotal_okb / mcomponents_okb sends two input '
+            'identities to one merged developer exactly when they are connected): a wrong table is a PROPFAIL of the clause "re-indexes by '
+            'merged developer identity"',
             'BurndownAnalysis.mergeMatrices (float resampling) is an opaque function of the two selected matrices (Section variable mergeM); '
             'the replay observes WHICH histories were selected by giving every input history the shape [[2^k]] with sampling = granularity '
             '= 1, for which mergeMatrices adds the values into its last row (code_merge)',
@@ -31,6 +50,8 @@ CONFIG = dict(
             'file lists of couples results have no duplicate names (with duplicates in the first list MergeReversedDictsLiteral depends '
             'on map iteration order or panics)'],
         trusted_base=[
+            'the union-find over identity parts written in the OCaml driver (second, independent judge of the identity table; the first one '
+            'is extracted from C16 and proved sound) and the report-only describers of differing cells',
             'hand-written Gallina model coq/theories/Combine/Model.v of the three MergeResults, CommonAnalysisResult.Merge and '
             'MergeReversedDictsLiteral, tied to the code by the replay of every harness case (zero mismatches)',
             'hook file /repo/leaves/verif_c18.go (constructors/getters for unexported result fields, re-export of the two identity merges)'],
@@ -43,8 +64,11 @@ CONFIG = dict(
                    'developers of that merged identity" is FALSE of the current code (finding F8): proved correct when every input identity is '
                    'spelled like its merged identity (histories: C18_people_selection, interaction rows: C18_interaction_rows), the exact '
                    'failure condition is proved (C18_people_selection_only_if) and refuted by vm_compute on the table of a real call '
-                   '(C18_people_selection_refuted), reproduced on the Go code by generator kinds bd-idmerge / bd-bridge. 15 theorems + 4 '
-                   'examples, all closed under the global context.',
+                   '(C18_people_selection_refuted), reproduced on the Go code by generator kinds bd-idmerge / bd-bridge. Strengthening round: '
+                   'C18_couples_fast_oracle_sound / C18_devs_fast_oracle_sound (the fast oracles used on large results imply the oracles of '
+                   'Spec.v), C18_identity_classes / C18_identity_finals_in_range (a table that passes the executable statements of C16 sends two '
+                   'input identities to the same merged developer, as the models of C18 read it, exactly when they are connected by shared '
+                   'names / e-mails). 18 theorems + 5 examples, all closed under the global context.',
         level_note='Trusted: correspondence Model.v <-> Go (tested, not proved: ~16 k pairs per quick run incl. exhaustive identity-list pairs and '
                    'malformed inputs, every field of the merged results compared after sorting map keys), Coq kernel, extraction, OCaml driver, '
                    'Go harness, the verif hook. Modelled rather than verified: the identity table (argument + checked well-formedness, C16 owns '
